@@ -32,6 +32,7 @@ fn main() {
         "cond" => exprfam::condcase,
         "insert" => exprfam::inscase,
         "tpl" => exprfam::tplcase,
+        "stmt" => exprfam::stmtcase,
         _ => {
             eprintln!("unknown family {family}");
             std::process::exit(2);
